@@ -13,8 +13,8 @@ STACK_THEOREMS += ['FlexVerif.C11ScanBuf.' + t for t in ('scanBuffer_shape', 'gu
                                                          'scanned_fields', 'scanBuffer_spec')]
 STACK_THEOREMS += ['FlexVerif.C11ScanBytes.' + t for t in ('scanBytes_shape', 'copy_loop', 'two_marks', 'scanBytes_spec', 'copy_terminated')]
 
-FLUSH_THEOREMS = ['FlexVerif.C11Flush.' + t for t in ('flush_null', 'flush_spec', 'init_spec', 'create_spec', 'delete_spec')] + \
-    ['FlexVerif.C11FlushC99.' + t for t in ('load_same', 'flush_same', 'flush99_spec', 'init99_spec', 'create99_spec', 'delete_same', 'delete99_spec')]
+FLUSH_THEOREMS = ['FlexVerif.C11Flush.' + t for t in ('flush_null', 'flush_spec', 'init_spec', 'create_spec', 'delete_spec', 'restart_current', 'restart_fresh')] + \
+    ['FlexVerif.C11FlushC99.' + t for t in ('load_same', 'flush_same', 'flush99_spec', 'init99_spec', 'create99_spec', 'delete_same', 'delete99_spec', 'restart99_current', 'restart99_fresh')]
 STACK_THEOREMS += FLUSH_THEOREMS
 
 
